@@ -592,7 +592,10 @@ func (e *EdgeQuery) initQueue() {
 	if len(e.indexCovering) == 0 {
 		// We delay iterator initialization until now to make queries on very
 		// small indexes a bit faster (i.e., where brute force is used).
-		e.iter = NewShapeIndexIterator(e.index)
+		// Iterator() applies any pending index updates first; an iterator
+		// created directly would read the cell map of an index that another
+		// goroutine may be building at this moment.
+		e.iter = e.index.Iterator()
 	}
 
 	// Optimization: if the user is searching for just the closest edge, and the
